@@ -197,6 +197,7 @@ def tables(repo):
     conn = pipe.connection()
     builder = conn.builder
     keep, meas, info = {}, {}, {}
+    flags = []
     rot_l, rot_r = (1, 2, 3), (4, 5, 6)
     for n in (1, 2, 3, 4):
         req = be.EntRequestParams(remote_node_id=1, epr_socket_id=0, number=n, post_routine=None, sequential=False,
@@ -215,11 +216,16 @@ def tables(repo):
             if n in meas and meas[n] != tab:
                 raise GenError("measure handles depend on the role")
             meas[n] = tab
-            for r in res:
-                if r.measurement_basis_local != rot_l or r.measurement_basis_remote != rot_r:
-                    raise GenError("measure handle does not carry the requested rotations")
-                if r.post_process != (role == qc.EPRRole.RECV):
-                    raise GenError("post_process flag is not (expect_phi_plus and role == RECV)")
+            for i, r in enumerate(res):
+                # semantic facts are DATA for a Coq obligation (gen_measure_flags), not translator errors: the
+                # check must go on to its oracle, which names the concrete call
+                flags.append((role.name, True, n, i, bool(r.post_process),
+                              tuple(r.measurement_basis_local) == rot_l and tuple(r.measurement_basis_remote) == rot_r))
+            req_off = be.EntRequestParams(remote_node_id=1, epr_socket_id=0, number=n, post_routine=None, sequential=False,
+                                          expect_phi_plus=False, rotations_local=rot_l, rotations_remote=rot_r)
+            for i, r in enumerate(be.deserialize_epr_measure_results(req_off, EchoArray(n * t["measure_len"]), role)):
+                flags.append((role.name, False, n, i, bool(r.post_process),
+                              tuple(r.measurement_basis_local) == rot_l and tuple(r.measurement_basis_remote) == rot_r))
         sl = builder._create_ent_info_k_slices(num_pairs=n, ent_results_array=EchoArray(n * t["OK_FIELDS_K"]))
         if len(sl) != n or any(type(x).__name__ != "LinkLayerOKTypeK" for x in sl):
             raise GenError("_create_ent_info_k_slices: unexpected result")
@@ -231,6 +237,7 @@ def tables(repo):
             raise GenError(f"{nm}: handle indices depend on n")
         out[nm] = fits[0]
     t["handles"] = out
+    t["measure_flags"] = flags
     conn.close()
     # ---- C10: Bell state -> gates actually applied by the emitted correction code
     paulis = []
@@ -336,6 +343,11 @@ def emit(t):
         stride, idx = t["handles"][nm]
         L.append(f"Definition gen_{nm}_stride : nat := {nat(stride)}.")
         L.append(f"Definition gen_{nm}_handle : list (string * nat) := {lst(f'({s(a)}, {nat(i)})' for a, i in idx.items())}.")
+    from coqemit import b as cqb
+    L.append("(* (role, expect_phi_plus, n, i, post_process flag of handle i, handle carries the requested rotations) *)")
+    L.append("Definition gen_measure_flags : list (string * bool * nat * nat * bool * bool) := "
+             + lst(f"({s(a)}, {cqb(e)}, {nat(n)}, {nat(i)}, {cqb(pp)}, {cqb(rot)})" for a, e, n, i, pp, rot in t["measure_flags"])
+             + ".")
     L.append("Definition gen_bell_conv : list (string * string * string) := "
              + lst(f"({s(a)}, {s(b_)}, {s(c)})" for a, b_, c in t["bell_conv"]) + ".")
     L.append("Definition gen_bell_paulis : list (Z * list (string * Z * Z)) := "
